@@ -11,6 +11,12 @@ CHECKS = {
  "C01": ("exhaustive enumeration of all well-typed programs up to a node bound x every witness assignment, encode/decode/re-encode on the real nodes, plus an independent bit-level codec decoding the bytes to a structurally computed maximal-sharing quotient",
          "Every 1->1 program among all canonical DAGs with <=5 (thorough 6) nodes over a 20-symbol alphabet (witness, disconnect with/without branch, assertions with hidden CMRs, fail, words, a jet), Core and Elements, commitment form and redemption form with every witness assignment of <=4-bit types (corner values above); roots, per-node kinds/arrows/roots, witness bits per node, byte-identical re-encoding; the reference codec must parse the bytes to exactly the expected node list.",
          "Trusts the reference codec and the structural sharing quotient; jet code words are atoms. Programs above the node bound and wide witnesses beyond corner values are not explored.", "5/C01"),
+ "C02": ("exhaustive enumeration of all byte strings up to a length bound as program and as witness for all three decoders and both jet families, plus every single (thorough: double) bit-level deviation and every single structural deviation (via an independent encoder) of every canonical encoding of the program population, plus magnitude macro-cases",
+         "All byte strings of <=2/3 bytes as program (Redeem, Commit, Construct decoders; Core, Elements) and as witness for six host programs with witnesses of type 2, 2^8, 2^16, 2^512, 1+2^8 and (2, 2^8); for every program of <=4/5 nodes and its witness assignments: every bit flip, prefix, 4 one-byte extensions, every padding bit, unsharing of every shared node, right-child-first emission at every binary node, four kinds of unused/hidden node insertion; 8-12 pair-doubling depths x 4 bases x 6 tails, word/length/back-reference naturals at the 31/32-bit limits. Each call under catch_unwind, a watchdog and an allocation meter; accepted => must re-encode to the input.",
+         "Trusts the reference encoder used to assemble non-canonical inputs. Byte strings longer than 3 bytes that are not within 2 deviations of a population member are not explored.", "5/C02"),
+ "C03": ("exhaustive differential enumeration: every (program bytes, witness bytes) pair in the space is run through the vendored C pipeline stage by stage and through RedeemNode::decode, verdicts and roots compared",
+         "All byte strings of <=2/3 bytes at every program/witness split; the encodings of every Elements program with <=5 nodes with all witness assignments (<=4-bit types) and every single deviation of each (thorough: double deviations for <=3 nodes); comp (comp witness j) unit for all 471 Elements jets. Accept/reject must agree except C's FailCode; on joint acceptance CMR, AMR, IHR and the cost bound must be identical.",
+         "The C library is the reference. C results ExecMemory/ExecBudget/Malloc are treated as outside the statement.", "5/C03"),
  "C04": ("exhaustive enumeration of all canonical combinator DAGs up to a node bound x every topological construction order, each run through the real ConstructNode API in a fresh context and judged by a textbook unifier",
          "All DAGs with <=5 (thorough 6; 7 over a reduced 8-symbol alphabet) nodes over an 18-symbol alphabet (well-typed or not, every sharing pattern), as program and as expression, in every linear extension of the dependency order; every Core and Elements jet as a typed leaf in all DAGs of <=3 nodes; pair-doubling macro-cases (up to 100 doublings) for termination, memory and displayability of errors. Verdict, every node's arrow and order-independence are compared on every case.",
          "Trusts the 60-line Robinson unifier and the typing rules as transcribed; DAGs above the node bound are only covered by the doubling macro-cases.", "5/C04"),
